@@ -1,18 +1,14 @@
 """C19 — JSON.parse / JSON.stringify conform to the JSON grammar and round-trip.
 
-Besides the CFG dict this file carries the known-finding recognisers and a batched mismatch handler: several
-recorded defects of the serialiser (indentation) are hit by a few percent of the generated values, so every
-mismatch of a run is re-executed and classified in ONE harness run + one coqc run per 200 cases instead of one
-per case (the shared handler looks at the first six mismatches only)."""
+The findings F13 and F-C19-1..5 have been repaired in /repo (known/C19.json "fixed": they suppress nothing, their
+former replays are plain regressions in corpus/C19/).  One finding is open (F-C19-6, a lone surrogate inside the gap
+string); it has a narrow recogniser below.  Every other disagreement with the specification model is a VIOLATION."""
 import json
 import os
 import re
-from fractions import Fraction
 
 import vcheck
 
-# ------------------------------------------------------------------------------------------------
-# reading observations / expectations back from the Gallina terms
 
 _SOBS = re.compile(r"\(TText \(U \[([0-9;]*)\]%N\)\)|TUndef|\(TErr (\d+)%N\)")
 _SOUT = re.compile(r"SText \[([^\]]*)\]|SUndef|SThrow")
@@ -47,163 +43,6 @@ def sout_list(exp):
     return out
 
 
-def walk(v, f):
-    if not isinstance(v, dict):
-        return
-    f(v)
-    for e in v.get("l") or []:
-        walk(e, f)
-    for p in v.get("p") or []:
-        walk(p.get("v"), f)
-    walk(v.get("inner"), f)
-
-
-def has_kind(v, kind):
-    hit = []
-    walk(v, lambda x: hit.append(1) if x.get("t") == kind else None)
-    return bool(hit)
-
-
-def text_of(units):
-    return "".join(chr(u) for u in units)
-
-
-# ------------------------------------------------------------------------------------------------
-# the recorded defects, each recognised by the shape of the input AND of the observed/expected pair
-
-THRESH = Fraction(2) ** 1024 - Fraction(2) ** 970
-_NUM = re.compile(r"-?(0|[1-9][0-9]*)(\.[0-9]+)?([eE]([+-]?)([0-9]+))?")
-_STR = re.compile(r'"(?:[^"\\]|\\.)*"', re.S)
-
-
-def has_out_of_range_number(units):
-    s = _STR.sub('""', text_of(units))
-    for m in _NUM.finditer(s):
-        ip, fp, ex = m.group(1), (m.group(2) or ".")[1:], m.group(5)
-        mant = int(ip + fp)
-        if mant == 0:
-            continue
-        e = (int(ex) if ex else 0) * (-1 if m.group(4) == "-" else 1) - len(fp)
-        nd = len(str(mant))
-        if e + nd > 400:
-            return True
-        if e + nd < -400:
-            continue
-        if Fraction(mant) * Fraction(10) ** e >= THRESH:
-            return True
-    return False
-
-
-def f13(case, rec, exp):
-    """JSON.parse: a text the grammar accepts, containing a number whose value rounds to +-Infinity, is rejected"""
-    if case.get("k") != "parse":
-        return False
-    obs = rec.get("coq", "")
-    return (obs.endswith("(PErr 3%N)") and "EParse" in exp and "Some" in exp
-            and has_out_of_range_number(case.get("t") or []))
-
-
-def space_value(case):
-    sp = case.get("sp") or {"t": "undef"}
-    return sp
-
-
-def num_float(n):
-    """the double denoted by a NUM description given by bit pattern, else None"""
-    import struct
-    if n.get("bits"):
-        return struct.unpack("<d", struct.pack("<Q", int(n["bits"])))[0]
-    return None
-
-
-def gap_units(case):
-    """the specification's gap for this case"""
-    sp = space_value(case)
-    if sp.get("t") in ("str", "boxstr"):
-        return (sp.get("s") or [])[:10]
-    if sp.get("t") in ("num", "boxnum"):
-        n = sp.get("n") or {}
-        f = num_float(n)
-        if f is not None:
-            if f != f or f < 1:
-                return []
-            return [32] * (10 if f >= 10 else int(f))
-        if n.get("sp") == "inf":
-            return [32] * 10
-        if n.get("q") is not None:
-            z = int(n["q"])
-            k = abs(z) // 4 * (1 if z >= 0 else -1)
-            return [32] * max(0, min(10, k))
-    return []
-
-
-def space_is_huge_number(case):
-    sp = space_value(case)
-    if sp.get("t") not in ("num", "boxnum"):
-        return False
-    n = sp.get("n") or {}
-    f = num_float(n)
-    if f is not None:
-        return f >= 2.0 ** 63
-    return n.get("sp") == "inf" or (n.get("q") is not None and int(n["q"]) >= 4 * 2 ** 63)
-
-
-def gap_is_nonascii(case):
-    sp = space_value(case)
-    s = (sp.get("s") or [])[:10]
-    return sp.get("t") in ("str", "boxstr") and any(u >= 0x80 for u in s) and all(u >= 0x80 or u == 32 for u in s)
-
-
-def compact(units):
-    """drop newlines and spaces outside strings"""
-    out, ins, esc = [], False, False
-    for u in units:
-        if ins:
-            out.append(u)
-            if esc:
-                esc = False
-            elif u == 92:
-                esc = True
-            elif u == 34:
-                ins = False
-        elif u == 34:
-            ins = True
-            out.append(u)
-        elif u in (10, 32):
-            continue
-        else:
-            out.append(u)
-    return out
-
-
-def strip_indent_runs(units):
-    """drop every line break together with the run of space / non-ASCII units that follows it"""
-    out, i = [], 0
-    while i < len(units):
-        if units[i] == 10:
-            i += 1
-            while i < len(units) and (units[i] == 32 or units[i] >= 0x80):
-                i += 1
-        else:
-            out.append(units[i])
-            i += 1
-    return out
-
-
-def strip_gap_indent(units, gap):
-    """drop every line break together with the copies of the gap that follow it"""
-    out, i, n = [], 0, len(gap)
-    while i < len(units):
-        if units[i] == 10:
-            i += 1
-            while n and units[i:i + n] == gap:
-                i += n
-        else:
-            out.append(units[i])
-            i += 1
-    return out
-
-
 def lone_surrogate(units):
     u = units or []
     for i, c in enumerate(u):
@@ -216,69 +55,59 @@ def lone_surrogate(units):
     return False
 
 
-def allowlist_has_lone_surrogate(case):
-    r = case.get("r") or {}
-    return r.get("t") == "list" and any(e.get("t") in ("str", "boxstr") and lone_surrogate(e.get("s"))
-                                        for e in (r.get("l") or []))
+
+def sanitize_units(u):
+    """lone surrogates -> U+FFFD (what a UTF-8 byte buffer keeps of them)"""
+    out = []
+    for i, c in enumerate(u):
+        if 0xD800 <= c <= 0xDBFF and not (i + 1 < len(u) and 0xDC00 <= u[i + 1] <= 0xDFFF):
+            out.append(0xFFFD)
+        elif 0xDC00 <= c <= 0xDFFF and not (i > 0 and 0xD800 <= u[i - 1] <= 0xDBFF):
+            out.append(0xFFFD)
+        else:
+            out.append(c)
+    return out
 
 
-def explain_one(case, obs, S, I, with_gap):
-    """-> set of finding names explaining obs (empty set: obs = S), or None.
-    I is the model with the two text-changing recorded defects switched on; it is only consulted when the input
-    has the shape of one of them (a Symbol wrapper in the value / a lone surrogate in an allow-list entry)."""
-    if obs == S:
-        return set()
-    cands = [(S, set())]
-    shape = set()
-    if has_kind(case.get("v"), "boxsym"):
-        shape.add("C19.stringify_symbol_wrapper_object")
-    if with_gap is not None and allowlist_has_lone_surrogate(case):
-        shape.add("C19.stringify_allowlist_lone_surrogate")
-    if shape and I != S:
-        if obs == I:
-            return shape
-        cands.append((I, shape))
-    if not with_gap or obs[0] != "text":
-        return None
-    gap = gap_units(case)
-    if not gap:
-        return None
-    for E, ids in cands:
-        if E[0] != "text":
-            continue
-        if space_is_huge_number(case) and compact(E[1]) == obs[1]:
-            return ids | {"C19.stringify_space_number_ge_2p63"}
-        if gap_is_nonascii(case) and strip_indent_runs(E[1]) == strip_indent_runs(obs[1]):
-            return ids | {"C19.stringify_nonascii_gap"}
-        et = text_of(E[1])
-        if ("[]" in et or "{}" in et) and strip_gap_indent(E[1], gap) == strip_gap_indent(obs[1], gap) \
-                and len(obs[1]) > len(E[1]):
-            return ids | {"C19.stringify_indent_leak_after_empty_container"}
-    return None
+def replace_all(units, pat, rep):
+    out, i, n = [], 0, len(pat)
+    while i < len(units):
+        if n and units[i:i + n] == pat:
+            out += rep
+            i += n
+        else:
+            out.append(units[i])
+            i += 1
+    return out
+
+
+def gap_lone_surrogate(case, rec, exp):
+    """F-C19-6: the space argument is a string whose first 10 code units contain a surrogate that is not half of a
+    pair (also when the truncation to 10 units splits a pair); observed = the specified text with every copy of the
+    gap written with U+FFFD in place of those surrogates; nothing else may differ."""
+    if case.get("k") != "str":
+        return False
+    sp = case.get("sp") or {}
+    if sp.get("t") not in ("str", "boxstr"):
+        return False
+    gap = (sp.get("s") or [])[:10]
+    if not lone_surrogate(gap):
+        return False
+    obs = sobs_list(rec.get("coq", ""))
+    exps = sout_list(exp)
+    if not obs or not exps or obs[0][0] != "text" or exps[0][0] != "text":
+        return False
+    return obs[0][1] != exps[0][1] and replace_all(exps[0][1], gap, sanitize_units(gap)) == obs[0][1]
 
 
 def explain(case, rec, exp):
     """-> set of finding names that explain this mismatch completely, or None"""
-    if case.get("k") == "parse":
-        return {"C19.parse_number_out_of_double_range"} if f13(case, rec, exp) else None
-    if case.get("k") != "str":
-        return None
-    obs = sobs_list(rec.get("coq", ""))
-    exps = sout_list(exp)
-    if len(exps) != 4 or not obs:
-        return None
-    S, I, MS, MI = exps
-    ids = explain_one(case, obs[0], S, I, True)
-    if ids is None:
-        return None
-    m = re.search(r"\(Some (\(TText \(U \[[0-9;]*\]%N\)\)|TUndef|\(TErr \d+%N\))\)$", rec.get("coq", ""))
-    if m:
-        mo = sobs_list(m.group(1))[0]
-        ids2 = explain_one(case, mo, MS, MI, None)
-        if ids2 is None:
-            return None
-        ids |= ids2
-    return ids or None
+    if gap_lone_surrogate(case, rec, exp):
+        return {"C19.stringify_gap_lone_surrogate"}
+    return None
+
+
+PRED_NAMES = ["C19.stringify_gap_lone_surrogate"]
 
 
 def pred(name):
@@ -288,13 +117,9 @@ def pred(name):
     return fn
 
 
-PRED_NAMES = ["C19.parse_number_out_of_double_range", "C19.stringify_indent_leak_after_empty_container",
-              "C19.stringify_space_number_ge_2p63", "C19.stringify_nonascii_gap",
-              "C19.stringify_symbol_wrapper_object", "C19.stringify_allowlist_lone_surrogate"]
-
 # ------------------------------------------------------------------------------------------------
-# batched handling of mismatches
-
+# batched handling of mismatches: EVERY mismatch of a run is re-executed and classified with the model's expected
+# text (one harness run + parallel coqc runs of 40 cases), so that a frequent known finding can never hide a new one
 
 def _eval_chunk(args):
     work, run_module, tag, idx, chunk = args
@@ -408,7 +233,7 @@ CFG = {
                       "parse_print_gap_roundtrip", "parse_print_roundtrip", "print_derives", "print_parse_canonical",
                       "print_idempotent", "canonical_form_decides", "derives_wf", "quote_roundtrip", "quote_safe",
                       "quote_wellformed", "stringify_json_shaped", "stringify_parse_roundtrip", "gap_of_number_ws",
-                      "marshal_agrees", "symbol_wrapper_refuted"],
+                      "marshal_agrees", "symbol_wrapper_is_object"],
     "allowed_axioms": [],
     "trusted_base": [
         "Coq 8.16.1 kernel + vm_compute (no native_compute); theorems closed under the global context (no axioms)",
@@ -428,8 +253,8 @@ CFG = {
         "under an allow-list replacer members are read with [[Get]]: the inherited accessor __proto__ is modelled "
         "(proto_chain_text); allow-lists naming other inherited accessors (e.g. Symbol.prototype.description) are not generated",
         "the spec model was cross-checked against node 20 (V8) on 3000 generated cases during development: the only difference is "
-        "V8's own deviation for 0 < space < 1 (it emits line breaks with an empty gap); all five recorded goja findings are "
-        "goja-vs-(model = V8) differences",
+        "V8's own deviation for 0 < space < 1 (it emits line breaks with an empty gap); the six goja findings recorded "
+        "then were goja-vs-(model = V8) differences and have since been repaired in /repo",
     ],
     "predicates": {n: pred(n) for n in PRED_NAMES},
     "manifest": {
